@@ -187,6 +187,43 @@ pub fn single_mutants(j: &Value) -> Vec<(String, Value)> {
     out
 }
 
+/// charge fields 71F / 71G set at several sites at once (every sequence-B occurrence and the settlement level), in every
+/// assignment of {absent, USD, EUR}: the currency-consistency rules of MT104 / MT107 (and 71F/71G of MT103) compare
+/// occurrences of one field across sequences, which no single-site mutant exercises
+pub fn charge_mutants(code: u32, j: &Value) -> Vec<(String, Value)> {
+    let mut out = Vec::new();
+    if ![103u32, 104, 107].contains(&code) {
+        return out;
+    }
+    let choices: [Option<&str>; 3] = [None, Some("USD"), Some("EUR")];
+    for a in 0..81usize {
+        let pick = [choices[a % 3], choices[a / 3 % 3], choices[a / 9 % 3], choices[a / 27 % 3]]; // 71F_B, 71F_C, 71G_B, 71G_C
+        let mut m = j.clone();
+        let val = |c: &str, vec: bool| if vec { json!([{"currency": c, "amount": 10.0}]) } else { json!({"currency": c, "amount": 10.0}) };
+        let Some(Value::Object(body)) = m.get_mut("fields") else { continue };
+        for (key, ccy) in [("71F", pick[1]), ("71G", pick[3])] {
+            match ccy {
+                Some(c) => { body.insert(key.into(), val(c, code == 103 && key == "71F")); }
+                None => { body.remove(key); }
+            }
+        }
+        if let Some(Value::Array(seq)) = body.get_mut("#") {
+            for e in seq.iter_mut() {
+                if let Value::Object(eo) = e {
+                    for (key, ccy) in [("71F", pick[0]), ("71G", pick[2])] {
+                        match ccy {
+                            Some(c) => { eo.insert(key.into(), val(c, false)); }
+                            None => { eo.remove(key); }
+                        }
+                    }
+                }
+            }
+        }
+        out.push((format!("charges 71F B={:?} C={:?} 71G B={:?} C={:?}", pick[0], pick[1], pick[2], pick[3]), m));
+    }
+    out
+}
+
 fn codes_of<T: SwiftMessageBody + serde::de::DeserializeOwned>(j: &Value) -> Option<Result<(Vec<String>, Value), ()>> {
     let m: SwiftMessage<T> = serde_json::from_value(j.clone()).ok()?;
     let body = serde_json::to_value(&m.fields).ok()?;
@@ -242,6 +279,7 @@ pub fn run(o: &Opts) -> Report {
                     }
                 }
                 cases.extend(singles);
+                cases.extend(charge_mutants(code, &j));
                 for (desc, jj) in cases {
                     let Some(res) = with_mt!(code, T => codes_of::<T>(&jj), None) else {
                         rep.tally("not-deserialisable");
